@@ -10,6 +10,7 @@ vars == <<l, st>>
 Empty0 == [nscn |-> 0, viol |-> {}]
 V(ps, c, ln, scn) == {[p |-> x, c |-> c, l |-> ln, scn |-> scn] : x \in ps}
 Props(ev) == IF ev.kind = "chan" THEN {"C04", "C02"} ELSE IF ev.kind = "ping" THEN {"C03", "C02"}
+             ELSE IF ev.kind = "pingdrop" THEN {"C03"} ELSE IF ev.kind = "chandrop" THEN {"C04"}
              ELSE IF ev.kind = "wakeup" THEN {"C11"} ELSE {"C10", "C02"}
 Own(ev) == Props(ev) \ {"C02"}
 StepH(s, ev, ln) ==
@@ -19,11 +20,15 @@ StepH(s, ev, ln) ==
                               THEN V(Props(ev), IF ev.kind = "chan" THEN "message_stranded_after_send_returned"
                                                 ELSE IF ev.kind = "ping" THEN "ping_not_delivered_after_ping_returned"
                                                 ELSE IF ev.kind = "wakeup" THEN "wakeup_lost"
+                                                ELSE IF ev.kind = "pingdrop" THEN "ping_source_not_removed_after_last_handle_dropped"
+                                                ELSE IF ev.kind = "chandrop" THEN "closed_not_delivered_after_last_sender_dropped"
                                                 ELSE "woken_future_not_polled_after_wake_returned", ln, ev.id) ELSE {})
                        \cup (IF ev.in_order = 0 THEN V(Own(ev), "sender_order_violated", ln, ev.id) ELSE {})
                        \cup (IF ev.errs > 0 THEN V(Own(ev), "dispatch_failed", ln, ev.id) ELSE {})
                        \* chan: one Closed after the last sender is gone; exec: the one result delivered once
-                       \cup (IF ev.kind \notin {"ping", "wakeup"} /\ ev.closed # 1 THEN V(Own(ev), IF ev.kind = "chan" THEN "closed_not_delivered_once" ELSE "exec_result_not_delivered_once", ln, ev.id) ELSE {})
+                       \cup (IF ev.kind \in {"chan", "exec"} /\ ev.closed # 1 THEN V(Own(ev), IF ev.kind = "chan" THEN "closed_not_delivered_once" ELSE "exec_result_not_delivered_once", ln, ev.id) ELSE {})
+                       \cup (IF ev.kind = "chandrop" /\ ev.stranded_round < 0 /\ ev.closed # ev.rounds
+                             THEN V(Own(ev), "closed_not_delivered_once", ln, ev.id) ELSE {})
                        \* the round in progress at a time-out is not judged (the sender may be anywhere in it)
                        \cup (IF ev.kind = "chan" /\ ev.stranded_round < 0 /\ ev.timed_out = 0 /\ ev.received # 2 * ev.rounds
                              THEN V(Own(ev), "message_lost_or_duplicated", ln, ev.id) ELSE {})]
